@@ -386,9 +386,40 @@ def rand_two_route_nfa(rng):
     return _nfa(4, sigma, sorted(edges), {qj} | ({qi} if rng.random() < 0.15 else set()), init=qi)
 
 
+def known_reserved_symbols(ctx):
+    """Open finding: the regex dialect has no way to write a literal operator character (or a symbol of several
+    characters), so a valid automaton whose alphabet contains one cannot be converted: GNFA.from_dfa refuses its own
+    labels, or to_regex returns a string that means something else ('.' is the wildcard) or that from_regex refuses.
+    The theorems carry the hypothesis sym_ok (ordinary single characters) for this reason, and the generators keep to
+    such alphabets; this reproducer runs on every pass."""
+    k = next((k for k in ctx.known if k["id"] == "to_regex_alphabet_with_reserved_characters"), None)
+    failing = []
+    for sym in ("*", "|", "(", ".", " ", "ab"):
+        d = DFA(states={0, 1}, input_symbols={sym}, transitions={0: {sym: 1}, 1: {}}, initial_state=0, final_states={1},
+                allow_partial=True)
+        out = outcome(lambda: GNFA.from_dfa(d).to_regex())
+        good = False
+        if out[0] == "ok":
+            back = outcome(lambda: NFA.from_regex(out[1], input_symbols=set(d.input_symbols)))
+            good = back[0] == "ok" and back[1].accepts_input(sym) and not back[1].accepts_input("") \
+                and not back[1].accepts_input(sym + sym)
+        if not good:
+            failing.append(sym)
+    ctx.tally("reserved_symbol_reproducer_failing_%d_of_6" % len(failing))
+    if failing:
+        if k is not None and k["status"] == "open":
+            ctx.report_known(k)
+        else:
+            ctx.violation(f"a two-state DFA whose only symbol is one of {failing!r} cannot be converted to a regular expression "
+                          "with its language", {"kind": "reserved_symbols", "symbols": failing})
+    elif k is not None and k["status"] == "open":
+        ctx.notes.append("known finding to_regex_alphabet_with_reserved_characters no longer reproduces")
+
+
 def run(ctx):
     ctx.rule = RULE
     rng = ctx.rng
+    known_reserved_symbols(ctx)
     for kind, sdef, tag in CORPUS:
         check(ctx, kind, sdef, "corpus:" + tag)
     n_cases = ctx.n(800, 9000)
